@@ -215,29 +215,29 @@ Definition key_str (k : pyval) : result string :=
    object of the three codecs needs (a result -> its aux list -> a complex number: two). *)
 Definition DEFAULT_FUEL : nat := 4.
 
+(* mapM with the function outside the fixpoint, so that nested recursive calls through it are guarded *)
+Definition mapR {A B} (f : A -> result B) : list A -> result (list B) :=
+  fix go (l : list A) : result (list B) :=
+    match l with
+    | [] => Ok []
+    | x :: xs => do y <- f x; do ys <- go xs; Ok (y :: ys)
+    end.
+
 Section Dumps.
   Variable default : pyval -> result pyval.
 
   Fixpoint dumps_fuel (fuel : nat) : pyval -> result json :=
     fix go (v : pyval) : result json :=
-      let fix gol (l : list pyval) : result (list json) :=
-        match l with
-        | [] => Ok []
-        | x :: xs => do j <- go x; do js <- gol xs; Ok (j :: js)
-        end in
-      let fix gok (l : list (pyval * pyval)) : result (list (string * json)) :=
-        match l with
-        | [] => Ok []
-        | (k, x) :: xs => do s <- key_str k; do j <- go x; do js <- gok xs; Ok ((s, j) :: js)
-        end in
+      let member := fun kv : pyval * pyval =>
+        let '(k, x) := kv in do s <- key_str k; do j <- go x; Ok (s, j) in
       match v with
       | PNone => Ok JNull
       | PBool b => Ok (JBool b)
       | PNum n => Ok (JNum n)
       | PStr s => Ok (JStr s)
-      | PTuple l | PList l => do js <- gol l; Ok (JArr js)     (* tuples are arrays: default() never sees them *)
-      | PDict kvs => do js <- gok kvs; Ok (JObj js)
-      | PObj CQuasiDist (PDict kvs :: _) => do js <- gok kvs; Ok (JObj js)   (* isinstance(o, dict): encoded natively *)
+      | PTuple l | PList l => do js <- mapR go l; Ok (JArr js)     (* tuples are arrays: default() never sees them *)
+      | PDict kvs => do js <- mapR member kvs; Ok (JObj js)
+      | PObj CQuasiDist (PDict kvs :: _) => do js <- mapR member kvs; Ok (JObj js)   (* isinstance(o, dict): encoded natively *)
       | _ => match fuel with
              | O => Err "ValueError"
              | S f => do v' <- default v; dumps_fuel f v'     (* default(o), and its output encoded recursively *)
@@ -258,19 +258,9 @@ Section Loads.
     | JBool b => Ok (PBool b)
     | JNum n => Ok (PNum n)
     | JStr s => Ok (PStr s)
-    | JArr l =>
-        do vs <- (fix gol (l : list json) : result (list pyval) :=
-                    match l with
-                    | [] => Ok []
-                    | x :: xs => do v <- loads x; do vs <- gol xs; Ok (v :: vs)
-                    end) l;
-        Ok (PList vs)
+    | JArr l => do vs <- mapR loads l; Ok (PList vs)
     | JObj kvs =>
-        do ms <- (fix gok (l : list (string * json)) : result (list (string * pyval)) :=
-                    match l with
-                    | [] => Ok []
-                    | (k, x) :: xs => do v <- loads x; do vs <- gok xs; Ok ((k, v) :: vs)
-                    end) kvs;
+        do ms <- mapR (fun kv : string * json => let '(k, x) := kv in do v <- loads x; Ok (k, v)) kvs;
         hook (sdict_of_pairs ms)
     end.
 End Loads.
